@@ -19,6 +19,7 @@ from odl.util.numerics import resize_array
 from .. import adjoint, cover, util
 
 SHARDS = {'quick': 4, 'thorough': 16}
+THOROUGH_ROUNDS = 4
 MODES = ['constant', 'symmetric', 'periodic', 'order0', 'order1']
 NP_MODE = {'constant': 'constant', 'periodic': 'wrap', 'symmetric': 'reflect', 'order0': 'edge'}
 
